@@ -26,13 +26,15 @@ Definition item_ok (it : lexitem) : Prop :=
 Definition wf (ts : list lexitem) : Prop := Forall item_ok ts.
 
 (** What a returned error must satisfy: a non-empty list of expected tokens (otherwise
-    [Lookahead::error] hits [unreachable!]), a good span unless it is the end-of-input span, and it is
-    never the marker of a documented-grammar restriction (those do not exist under [impl_flags]). *)
+    [Lookahead::error] hits [unreachable!]), a good span -- or, for an error reported at the end of the
+    input, one of the two end-of-input spans of the environment ([NoPanicTop] shows that those of
+    [mk_ctx] are good) --, and it is never the marker of a documented-grammar restriction (those do not
+    exist under [impl_flags]). *)
 Definition err_ok (x : perror) : Prop :=
   match x with
   | PE_Lexer _ sp | PE_EmptyType _ sp | PE_InvalidVersion _ sp => ok sp
   | PE_Expected at_ (Some _) sp => at_ <> [] /\ ok sp
-  | PE_Expected at_ None _ => at_ <> []
+  | PE_Expected at_ None sp => at_ <> [] /\ (sp = eof_tok (cx e) \/ sp = eof_la (cx e))
   | PE_DocRestriction _ => False
   end.
 
@@ -121,7 +123,8 @@ Qed.
 Lemma next_tok_out k ts :
   wf ts -> outcome (tokP k) (fun n => n < length ts) (next_tok e k ts).
 Proof.
-  intros Hwf. unfold next_tok. heads ts Hwf; cbn [stuck outcome err_ok]; auto; try discriminate.
+  intros Hwf. unfold next_tok. heads ts Hwf; cbn [stuck outcome err_ok]; auto; try discriminate;
+    try (split; [discriminate|now left]).
   destruct (token_eqb (tk t) k) eqn:E; cbn [outcome err_ok length].
   - apply token_eqb_eq in E. split; [split; [exact E|exact Hi]|split; [exact Hwr|lia]].
   - split; [discriminate|now apply item_wf_span in Hi].
@@ -137,7 +140,8 @@ Qed.
 Lemma la_fail_out {A} (P : A -> Prop) L attempts ts :
   wf ts -> attempts <> [] -> outcome P L (la_fail e attempts ts).
 Proof.
-  intros Hwf Hne. unfold la_fail. heads ts Hwf; cbn [stuck outcome err_ok]; auto.
+  intros Hwf Hne. unfold la_fail. heads ts Hwf; cbn [stuck outcome err_ok]; auto;
+    try (split; [exact Hne|now right]).
   split; [exact Hne|now apply item_wf_span in Hi].
 Qed.
 
